@@ -1940,6 +1940,12 @@ func scenSlowFSM(e *engineA) error {
 		})
 		for i := 0; i < k; i++ {
 			go e.cl.fsmOp(2+i, cur, "update")
+			if i == 0 && round%3 == 1 {
+				// a snapshot is asked for while updates are queued for the
+				// state machine on both sides of the request: what it holds
+				// and the index it is labelled with have to agree
+				go e.cl.takeSnapshot(cur, 0)
+			}
 		}
 		select {
 		case <-window:
@@ -1958,6 +1964,30 @@ func scenSlowFSM(e *engineA) error {
 	for _, n := range e.cl.liveNodes() {
 		e.pc.setSlow(n.dir, "fsm.beforeApply", 0)
 	}
+	// one more snapshot, held right after the state was captured while the
+	// state machine goes on applying: label and content belong to the moment
+	// of the capture
+	if cur := e.cl.leader(); cur != nil {
+		l = cur
+		hit := e.pc.hold(cur.dir, "snap.captured")
+		go e.cl.takeSnapshot(cur, 0)
+		select {
+		case <-hit:
+			for i := 0; i < 3+e.rng.Intn(4); i++ {
+				e.cl.fsmOp(1, cur, "update")
+			}
+		case <-time.After(20 * e.hb()):
+		}
+		e.pc.release(cur.dir, "snap.captured")
+	}
+	// the node whose snapshots were taken under a backlog comes back from
+	// its newest snapshot plus the log behind it
+	e.sleepHB(2, 3)
+	e.rc.emit(&ev.Rec{K: "fault", Op: "restart", Nid: l.nid})
+	if _, err := e.cl.restart(l.nid); err != nil {
+		e.rc.emit(&ev.Rec{K: "restart-failed", Cid: e.cl.cid, Nid: l.nid, Err: err.Error()})
+	}
+	e.sleepHB(2, 4)
 	return e.finish()
 }
 
